@@ -1,6 +1,6 @@
 """C07 Decode -> encode -> decode is a fixpoint over all machine words (also feeds C01's source (c))."""
 import json, os, re
-from nvlib import (Worker, WorkerCrash, WorkerTimeout, Stats, Violation, shard_seed, load_known)
+from nvlib import (Worker, WorkerCrash, WorkerTimeout, Stats, Violation, shard_seed, load_known, repo_re)
 
 PROP = "C07"
 RULE = ("enumeration inside the harness: for each of the 68 CPUs the leading 16-bit patterns (quick: every 8th, "
@@ -124,7 +124,7 @@ def scan(w, s, name, tier, kinds_wanted, known, prop, survey, align=0):
         with open(w.errpath, "rb") as f:
             f.seek(errpos)
             err = f.read().decode("latin-1")
-        m = re.search(r"(/repo/\S+:\d+)[^\n]*runtime error: ([^\n]*)", err) or \
+        m = re.search(r"(" + repo_re() + r"/\S+:\d+)[^\n]*runtime error: ([^\n]*)", err) or \
             re.search(r"ERROR: AddressSanitizer: (\S+)[^\n]*\n(?:[^\n]*\n){0,4}?\s*#0 [^\n]* in ([^\n]*)", err)
         crash_detail = (m.group(0) if m else "")[:250]
     except OSError:
